@@ -29,7 +29,8 @@ ASSUMPTIONS = [
     "grids inside the C13 domain (>= 2 states per half-axis); n-d grids of at most 15 points per axis (2-d) / 9 (3-d)",
 ]
 REQUIRED_COUNTERS = ["rate_comparisons_1d", "intensity_checks", "tiling_checks", "nd_cell_comparisons", "nd_row_sums",
-                     "grid_init_postconditions", "infinite_variation_copula_chains", "second_model_on_the_same_grid", "chain_rebuilt_after_refining_the_same_grid", "model_object_used_by_an_earlier_chain"]
+                     "grid_init_postconditions", "infinite_variation_copula_chains", "second_model_on_the_same_grid", "chain_rebuilt_after_refining_the_same_grid", "model_object_used_by_an_earlier_chain",
+                     "models_with_an_already_restricted_measure"]
 MIN_NONTRIVIAL = {"quick": 60, "thorough": 400}
 THOROUGH_ROUNDS = 5      # the thorough tier runs the generators this many times (different seeds)
 SHARD_TIMEOUT = {"quick": 900, "thorough": 7200}
@@ -56,6 +57,11 @@ def gen_cases(tier, seed):
             meths = list(C.METHODS_1D) if thorough or i % 5 == 0 else [C.METHODS_1D[i % 6], C.METHODS_1D[(i + 3) % 6]]
             cases.append({"model": m, "grid": G.gen_grid_spec(rng, ctor, 1), "level": lev, "methods": meths, "then_refine": bool(i % 3 == 0 and lev <= 2),
                           "after_narrow_chain": ctor in ("fixed", "geometric_bounds")})
+            if ctor in ("fixed", "geometric_bounds") and i % 2 == 0:
+                # the model handed to the chain already has its measure restricted to an interval (by the user, or because it is the model
+                # of another chain) narrower than the grid: the rates are the masses of the cells under that restricted measure
+                cases.append(dict(cases[-1], after_narrow_chain=False, then_refine=False, methods=meths[:2],
+                                  pre_truncated=[W.r6(rng.uniform(0.3, 0.85)), W.r6(rng.uniform(0.3, 0.85))]))
     # copulas
     nnd = 14 if not thorough else 120
     kinds = ["clayton", "independent", "dependent", "clayton"]
@@ -150,6 +156,23 @@ def _run_1d(case, R, prebuilt=None):
         except Exception:  # noqa: BLE001  (the narrow chain itself is not the subject)
             pass
     rates, errs, lo, hi, problems = C.oracle_rates_1d(mspec, oracle_model, grid)
+    if case.get("pre_truncated") and prebuilt is None:
+        from ..oracles import quadrature as Q
+
+        tl, tr = float(case["pre_truncated"][0] * grid.axes[0][0]), float(case["pre_truncated"][1] * grid.axes[0][-1])
+        try:
+            model.truncate_levy_measure((tl, tr))
+        except Exception as exc:  # noqa: BLE001
+            R.violation("truncate-levy-measure-raises", f"{label}: {type(exc).__name__}: {exc}", {"model": mspec})
+            return
+        R.hit("models_with_an_already_restricted_measure")
+        oracle_model = W.build_model(mspec)
+        dens, alpha_, br_ = oracle_model.levy_triplet.nu.__call__, W.activity_index(mspec), W.density_breakpoints(mspec)
+        for k in range(rates.size):
+            a_, b_ = max(float(lo[k]), tl), min(float(hi[k]), tr)
+            if k == grid.origin_coordinate.value:
+                continue
+            rates[k], errs[k] = (0.0, 0.0) if a_ >= b_ else Q.integrate_xn(dens, a_, b_, 0, br_, alpha_)
     o = grid.origin_coordinate.value
     n = rates.size
     R.hit("tiling_checks")
